@@ -509,6 +509,43 @@ where
         },
     );
 }
+/// float tiers: both operands roughly along coordinate axes - off-axis components 2^-k of the main one, for every k
+/// from 3 to 24 - along the same axis, different axes, either sense (a "both axis-aligned" short cut drops the products
+/// of the small components)
+fn near_axes<T: Tier + Dom<M = Sh>>(rep: &mut Report)
+where
+    Vector1<T>: MaybeNeg,
+    Vector2<T>: MaybeNeg,
+    Vector3<T>: MaybeNeg,
+    Vector4<T>: MaybeNeg,
+{
+    let ks: Vec<i32> = (3..=24).step_by(3).collect();
+    let dims = [4usize, 4, 2, ks.len(), ks.len()];
+    rep.cases(
+        "near-axes",
+        T::NAME,
+        &format!("u roughly along +-e_i, v roughly along +-e_j (i, j < 4, both senses of v), off-axis components 2^-k of the main one, k in {:?} independently for u and v: every operation, cross, perp_dot", ks),
+        alphabet::product_len(&dims),
+        Guard::states(100).distinct(50),
+        |i, ctx| {
+            let d = alphabet::decode(i, &dims);
+            let c = |x: f64| num_traits::cast::<f64, T>(x).unwrap();
+            let (du, dv) = (2f64.powi(-ks[d[3]]), 2f64.powi(-ks[d[4]]));
+            let sg = if d[2] == 0 { 1.0 } else { -1.0 };
+            let u: [T; 4] = std::array::from_fn(|j| c(if j == d[0] { 3.0 } else { 3.0 * du * [0.75, -1.0, 0.5, 0.875][j] }));
+            let v: [T; 4] = std::array::from_fn(|j| c(if j == d[1] { sg * 2.0 } else { 2.0 * dv * [-0.625, 0.5, 1.0, -0.75][j] }));
+            ctx.describe(|| format!("u={:?} v={:?}", u, v));
+            let s: T = c(2.5);
+            ops::<T, Vector2<T>, 2>(ctx, [u[0], u[1]], [v[0], v[1]], s);
+            ops::<T, Vector3<T>, 3>(ctx, [u[0], u[1], u[2]], [v[0], v[1], v[2]], s);
+            ops::<T, Vector4<T>, 4>(ctx, u, v, s);
+            let (a3, b3): ([T; 3], [T; 3]) = ([u[0], u[1], u[2]], [v[0], v[1], v[2]]);
+            cmp::<T, 3>(ctx, "cross/near-axes", v3(mk_v3(a3).cross(mk_v3(b3))), model::cross(lift_v(a3), lift_v(b3)));
+            let (ma, mb) = (lift_v([u[0], u[1]]), lift_v([v[0], v[1]]));
+            cmp_s::<T>(ctx, "perp_dot/near-axes", mk_v2([u[0], u[1]]).perp_dot(mk_v2([v[0], v[1]])), ma[0] * mb[1] - ma[1] * mb[0]);
+        },
+    );
+}
 fn all<D: Dom>(rep: &mut Report)
 where
     Vector1<D>: MaybeNeg,
@@ -537,5 +574,7 @@ fn main() {
     for_all_doms!(all, &mut rep);
     nearly_special::<f64>(&mut rep);
     nearly_special::<f32>(&mut rep);
+    near_axes::<f64>(&mut rep);
+    near_axes::<f32>(&mut rep);
     std::process::exit(rep.finish());
 }
